@@ -48,6 +48,7 @@ def plan(tier, seed):
     specs += shards("docs", 2000 if q else 100000, 250 if q else 4000, seed)
     specs += shards("noisy", 3000 if q else 150000, 500 if q else 5000, seed)
     specs += shards("reused", 3000 if q else 150000, 500 if q else 5000, seed)
+    specs += [{"family": "thresholds", "seed": seed, "n": 1, "part": k, "parts": 8, "tier": tier} for k in range(8)]
     specs += [{"family": "corpus", "seed": seed, "n": 1}, {"family": "w0", "seed": seed, "n": 1}]
     specs += shards("listings", 600 if q else 30000, 150 if q else 3000, seed)
     return specs
@@ -135,6 +136,25 @@ def run_shard(spec, M):
             r = rng(spec["seed"], ID, "noisy", i)
             L = noisy.gen(r, 40)
             check_lines(L, M, {"kind": "lines", "L": L})
+    elif fam == "thresholds":
+        # long look-ahead windows, long tables/tag runs/comment runs: sizes around 10, 32, 64, 100, 128, 256, 512, 1000, 1024
+        from .. import thresholds
+        for dim, n in thresholds.cases(spec["tier"], spec["part"], spec["parts"]):
+            R = thresholds.build(dim, n)
+            M.case(h64(R.text))
+            M.hist("threshold_dims", dim)
+            M.maximum("max_threshold_n", n)
+            o = observe.parse_observed(R.text)
+            case = {"kind": "threshold", "dim": dim, "n": n}
+            apply_parse_monitors(o, M, case, G_DECIDING)
+            if o.log is not None:
+                for which, res, q0, q1, nread in o.log.la_calls:
+                    M.maximum("max_tokens_scanned_by_one_lookahead", max(nread, q1))
+            got = [k for _, k in o.log.builds][:-1] if o.status == "ok" else None
+            if got != R.kinds:
+                M.violation("C18.kinds", {"what": "threshold document: delivered line kinds differ from the kinds written (or document rejected)",
+                                          "dim": dim, "n": n, "status": o.status, "errors": o.err_messages()[:2],
+                                          "delivered": len(got) if got else None, "written": len(R.kinds)}, case)
     elif fam == "reused":
         # the same parser object for the whole shard; perturbing documents (also abandoned parses) in between
         env = ReusedEnv(rng(spec["seed"], ID, "reuse", spec["shard"]))
@@ -251,6 +271,9 @@ def check_listing(text, M, case, golden=None, path=None):
 
 def replay(case, M):
     k = case["kind"]
+    if k == "threshold":
+        run_shard({"family": "thresholds", "tier": "thorough", "part": 0, "parts": 1, "seed": 0}, M)
+        return
     if k == "shard":
         run_shard(case["spec"], M)
         return
